@@ -5,6 +5,7 @@ import EaselModel.Alphabet.GuessModel
 import EaselModel.Alphabet.TypeModel
 import EaselModel.Alphabet.Sq2Model
 import EaselModel.Alphabet.Model3
+import EaselModel.Alphabet.ObjModel
 /-! Line-protocol driver for the C08 model (same ops as harness/h_alphabet.c). -/
 open EaselModel EaselModel.Proto EaselModel.Alphabet
 
@@ -332,6 +333,25 @@ def step (s : S) (line : String) : S × String :=
     let ss := (argHex? ws "ss").map fun b => b.map (·.toNat)
     if (match ss with | some v => v.length ≠ txt.length || v.contains 0 | none => false) then (s, "bad-op") else
     (s, Sq.roundtripLine a txt ((argNat? ws "rc").getD 0 ≠ 0) hx ss ((argNat? ws "retry").getD 0 ≠ 0))
+  else if op == "sqobj" then
+    -- one ESL_SQ with ss / xr markup driven through a script of Digitize / Textize / ReverseComplement / Grow / GrowTo / Copy
+    let digital := arg? ws "init" == some "digital"
+    let viaAdd := arg? ws "via" == some "add"
+    let res := argBytes ws "hex"
+    let bad := if digital then res.any (· == 255) else res.any (· == 0)
+    let ss := (argHex? ws "ss").map fun b => b.map (·.toNat)
+    let xr : List (List Nat) := match arg? ws "xr" with
+      | none => []
+      | some w => (w.splitOn ",").map fun h => ((bytesOfHex h).getD []).map (·.toNat)
+    let okLen := fun (v : List Nat) => v.length == res.length && !v.contains 0
+    if bad || (match ss with | some v => !okLen v | none => false) || xr.any (fun v => !okLen v) then (s, "bad-op") else
+    match Sq.mkObj digital viaAdd res ss xr with
+    | none => (s, "fault")
+    | some o =>
+      let toks := ((arg? ws "script").getD "").splitOn "," |>.filter (fun t => t ≠ "" && t ≠ "-")
+      match Sq.SqObj.script a o toks [] with
+      | none => (s, "fault")
+      | some (ws', o') => (s, " ".intercalate (ws' ++ [o'.line hx]))
   else if op == "sqrevtext" then
     let txt := argBytes ws "hex"
     if cstr txt ≠ txt then (s, "bad-op") else
